@@ -280,6 +280,37 @@ pub fn ev_bin<S: Src>(s: &mut S, lo: u8, hi: u8, bits: u32) {
     core::mem::forget(e);
 }
 
+/// An undefined name on either side of any binary operator makes the whole expression fail -
+/// whatever the value of the other operand (no operator may "short-circuit" an error away).
+pub fn ev_bin_unbound<S: Src>(s: &mut S) {
+    let op = s.below(18);
+    s.role(H_C05_BIN, op as u32);
+    let v = s.i64();
+    let left_unbound = s.bool();
+    let unbound = || Expr::Ident(String::from("u"));
+    let e = if left_unbound {
+        boxed_bin(unbound(), bin_at(op), Expr::Const(v))
+    } else {
+        boxed_bin(Expr::Const(v), bin_at(op), unbound())
+    };
+    let ctx = Ctx::plain();
+    let got = e.run(&ctx);
+    cov!(got.is_err(), "!undefined operand rejected");
+    #[cfg(not(kani))]
+    {
+        s.note("v", v);
+        s.note("left_unbound", left_unbound as i64);
+        note_res(s, &got, "Fail");
+        if v >= 0 {
+            let text = if left_unbound { format!("u {} {}", OP_TEXT[op as usize], v) } else { format!("{} {} u", v, OP_TEXT[op as usize]) };
+            api_check(&text, Want::Fail);
+        }
+    }
+    chk!(s, got.is_err(), "C05/C10: an expression with an undefined name evaluated to a value");
+    core::mem::forget(got);
+    core::mem::forget(e);
+}
+
 pub fn ev_un<S: Src>(s: &mut S) {
     let op = s.below(3);
     s.role(H_C05_UN, op as u32);
